@@ -226,8 +226,9 @@ func scenMicroGate(s *Sim) {
 	s.Count("nontrivial", 1)
 	g := kgo.NewVerifGate()
 	var mu sync.Mutex
-	inReb := 0   // rebalances inside their gated section
-	holding := 0 // polls that returned records and were not yet allowed
+	p2Inside, p2Gen, allowGen := false, 0, 0 // second poller: inside a poll admitted at AllowRebalance generation p2Gen
+	inReb := 0                               // rebalances inside their gated section
+	holding := 0                             // polls that returned records and were not yet allowed
 	var wg sync.WaitGroup
 	npoll := int(p.Knob("poll_iters", 20))
 	nreb := int(p.Knob("rebalancers", 2))
@@ -241,6 +242,20 @@ func scenMicroGate(s *Sim) {
 	go func() {
 		defer wg.Done()
 		for i := 0; i < npoll; i++ {
+			// AllowRebalance resets the poll count, so a release by another
+			// goroutine's poll that was admitted before the reset would be
+			// taken from THIS goroutine's next hold: an application with
+			// several polling goroutines has to order "next hold" after
+			// "releases of polls older than my AllowRebalance"
+			for {
+				mu.Lock()
+				wait := p2Inside && p2Gen < allowGen
+				mu.Unlock()
+				if !wait {
+					break
+				}
+				time.Sleep(50 * time.Microsecond)
+			}
 			g.WaitAndAddPoller()
 			mu.Lock()
 			if inReb > 0 {
@@ -260,6 +275,7 @@ func scenMicroGate(s *Sim) {
 			}
 			mu.Lock()
 			holding--
+			allowGen++
 			mu.Unlock()
 			g.AllowRebalance()
 		}
@@ -270,6 +286,9 @@ func scenMicroGate(s *Sim) {
 		go func() {
 			defer wg.Done()
 			for i := 0; i < npoll; i++ {
+				mu.Lock()
+				p2Inside, p2Gen = true, allowGen
+				mu.Unlock()
 				g.WaitAndAddPoller()
 				mu.Lock()
 				if inReb > 0 && holding == 0 {
@@ -277,7 +296,13 @@ func scenMicroGate(s *Sim) {
 					s.Violf("C31/gate/poll-during-rebalance", "an empty poll passed the gate while %d rebalance(s) are inside their gated section", inReb)
 				}
 				mu.Unlock()
+				if s.Pick(2) == 0 {
+					time.Sleep(time.Duration(s.Pick(3000)) * time.Microsecond) // inside its fill section
+				}
 				g.UnaddPoller()
+				mu.Lock()
+				p2Inside = false
+				mu.Unlock()
 			}
 		}()
 	}
